@@ -22,6 +22,8 @@ impl<'a> Iterator for Tokenizer<'a> {
     type Item = Token;
 
     fn next(&mut self) -> Option<Token> {
+        #[cfg(feature = "verif_hooks")]
+        crate::verif_hooks::tick();
         let current_char = self.expr.next();
 
         match current_char {
@@ -47,6 +49,8 @@ impl<'a> Iterator for Tokenizer<'a> {
                     let mut number = "0".to_string();
                     number.push(current_char?);
                     while let Some(next_char) = self.expr.peek() {
+                        #[cfg(feature = "verif_hooks")]
+                        crate::verif_hooks::tick();
                         if next_char.is_ascii_digit() {
                             number.push(self.expr.next()?);
                         } else {
@@ -131,6 +135,8 @@ impl<'a> Iterator for Tokenizer<'a> {
             Some('0'..='9') => {
                 let mut number = current_char?.to_string();
                 while let Some(next_char) = self.expr.peek() {
+                    #[cfg(feature = "verif_hooks")]
+                    crate::verif_hooks::tick();
                     if next_char.is_ascii_digit() || next_char == &'.' {
                         number.push(self.expr.next()?);
                     } else {
